@@ -62,8 +62,9 @@ pub fn gen(ch: &mut Chooser, max_fields: usize) -> Case {
     let nfields = 1 + ch.choose("nfields", max_fields);
     let mut fields = Vec::new();
     for i in 0..nfields {
-        let (id, raw) = *ch.pick("ident", &IDENTS);
-        let rn = *ch.pick("rename", &RENAMES);
+        // the second field (thorough tier) ranges over a reduced alphabet: the two-field square of the full one is 10^8 runs
+        let (id, raw) = if i == 0 { *ch.pick("ident", &IDENTS) } else { *ch.pick("ident2", &IDENTS[..5]) };
+        let rn = if i == 0 { *ch.pick("rename", &RENAMES) } else { *ch.pick("rename2", &RENAMES[..3]) };
         let mut f = Field::new(id, Ty::Prim("u32"));
         f.raw = raw;
         f.rename = rn.map(String::from);
@@ -296,6 +297,41 @@ pub fn run(args: &[String]) -> i32 {
         json!({"containers": ["struct", "struct variant of a tagged enum"], "fields_per_container": max_fields, "idents": IDENTS.len(), "renames": RENAMES.len(),
                "rename_all": RULES.len(), "placements": ["own container", "enclosing enum only", "both"], "attr_styles": 4, "extra_serde_attributes": [false, true], "variant_carries_its_own_rename": [false, true], "languages": 6, "configs": ["defaults", "prefix + other package + Go uppercase_acronyms [ID, URL]"]}),
     );
+    // two fields, reduced alphabets (full product): what one field needs must not depend on its neighbour or position
+    {
+        let gen2 = |ch: &mut Chooser| -> Case {
+            let in_variant = ch.flag("container");
+            let mut fields = Vec::new();
+            for i in 0..2 {
+                let id = *ch.pick("ident", &["user_name", "id", "x"]);
+                let rn = *ch.pick("rename", &[None, Some("with-dash"), Some("camelCased")]);
+                let mut f = Field::new(id, Ty::Prim("u32"));
+                f.rename = rn.map(|r| format!("{r}{}", if i == 1 { "2" } else { "" }));
+                if i == 1 {
+                    f.ident = format!("{}_2", f.ident);
+                }
+                fields.push(f);
+            }
+            let rule = *ch.pick("rename_all", &[None, Some("kebab-case"), Some("camelCase"), Some("SCREAMING_SNAKE_CASE")]);
+            let lang = *ch.pick("lang", &ALL_LANGS);
+            let prefixed = ch.flag("cfg");
+            Case { in_variant, own_rule: rule, enum_rule: None, fields, style: AttrStyle::Separate, lang, prefixed, extra_attrs: false, variant_renamed: false }
+        };
+        let (accs, stats) = explore(
+            |ch| {
+                gen2(ch);
+            },
+            |ch, acc: &mut Acc| {
+                let c = gen2(ch);
+                check_case(&c, &ch.choices(), acc);
+            },
+            Mode::Product,
+            3,
+            report::threads(),
+            u64::MAX,
+        );
+        merge(&mut rep, "two_fields_reduced", accs, &stats, json!({"fields": 2, "idents": 3, "renames": ["none", "dashed", "camelCased"], "rename_all": ["none", "kebab-case", "camelCase", "SCREAMING_SNAKE_CASE"], "containers": 2, "languages": 6, "configs": 2}));
+    }
     let amb_k = if rep.thorough() { 3 } else { 2 };
     super::common::ambient_family(&mut rep, "ambient_variations", amb_k, |ch| { gen(ch, 2); }, |ch, acc| {
         let c = gen(ch, 2);
